@@ -160,6 +160,21 @@ func main() {
 		names, texts := set.Files()
 		cases = append(cases, rescorr.Case{Names: names, Texts: texts, Extra: map[string]string{"label": "late"}})
 	}
+	// files on disk: only some texts are handed to Parse, the others lie on the search path and are
+	// loaded by Process itself while it links imports and includes; the oracle walks every module
+	// and submodule that ended up loaded, the model is asked with exactly those texts
+	nPath := n / 4
+	for i := 0; i < nPath; i++ {
+		r := f.Rand(2000003 + i)
+		set := gen.Generate(r, cfg)
+		if i%3 == 0 {
+			gen.AddLateAugments(r, set)
+		}
+		names, texts := set.Files()
+		if c, ok := pathCase(r, set, names, texts); ok {
+			cases = append(cases, c)
+		}
+	}
 	cases = append(corpusCases(), cases...)
 	nCorpus := len(corpusCases())
 	outs := rescorr.RunAll(cases, f)
@@ -213,14 +228,21 @@ func main() {
 			if o.Case.Extra["label"] == "late" || o.Case.Extra["label"] == "corpus" {
 				res.Count("clean_sets_with_late_augments", 1)
 			}
+			if rescorr.FromPath(o.Case) {
+				res.Count("clean_sets_with_modules_loaded_by_Process_from_the_path", 1)
+				if len(o.Go.Extra["loaded"]) > len(strings.Split(o.Case.Extra["roots"], ",")) {
+					res.Count("clean_sets_where_Process_loaded_at_least_one_module", 1)
+				}
+			}
 			if distinct.Add(strings.Join(o.Case.Texts, "\x00")) && i%(len(outs)/6+1) == 0 {
 				res.AddSample(map[string]any{"files": o.Case.Names, "first_text": o.Case.Texts[0], "records": len(o.Go.Dump)})
 			}
 		}
 	}
-	res.Evaluations = int64(n + nLate + nCorpus)
+	res.Evaluations = int64(len(cases))
+	_ = nCorpus
 	res.DistinctNontrivial = distinct.Len()
-	res.Rule = "seeded grammar-directed module sets (harness/gen: 1-3 modules, submodules with nested includes, groupings/uses, choices, rpc/action, notifications, augments, deviations, tiny name pools, deliberate faults at a low rate; plus n/4 sets with late augments added by gen.AddLateAugments - target through or at an implied case, body with short-hand choice members, written in owner / submodule / importer - and a fixed corpus of such sets); distinct_nontrivial = distinct sets (by text) on which Process reports no errors, i.e. where the tree invariant is actually checked"
+	res.Rule = "seeded grammar-directed module sets (harness/gen: 1-3 modules, submodules with nested includes, groupings/uses, choices, rpc/action, notifications, augments, deviations, tiny name pools, deliberate faults at a low rate; plus n/4 sets with late augments added by gen.AddLateAugments - target through or at an implied case, body with short-hand choice members, written in owner / submodule / importer - and a fixed corpus of such sets; plus n/4 sets in the files-on-disk variant: only the root modules (nobody imports them), a random subset, or one module are handed to Parse, the rest lies on the search path and is loaded by Process, the oracle walks every module that ended up loaded and the model is asked with exactly the loaded texts); distinct_nontrivial = distinct sets (by text) on which Process reports no errors, i.e. where the tree invariant is actually checked"
 	res.Distribution["clean_sets"] = clean
 	res.Distribution["sets_with_errors"] = withErr
 	res.Distribution["sets_with_late_errors(merge/deviation)"] = late
@@ -236,6 +258,59 @@ func firstLine(s string) string {
 	return s
 }
 
+// pathCase turns a generated set into its files-on-disk variant.
+func pathCase(r interface{ Intn(int) int }, set *gen.Set, names, texts []string) (rescorr.Case, bool) {
+	seen := map[string]bool{}
+	for _, n := range names {
+		if seen[n] {
+			return rescorr.Case{}, false
+		}
+		seen[n] = true
+	}
+	used := map[*gen.Module]bool{}
+	for _, m := range set.Mods {
+		for _, o := range m.Imports {
+			used[o] = true
+		}
+		for _, o := range m.Includes {
+			used[o] = true
+		}
+	}
+	var roots []int
+	switch r.Intn(3) {
+	case 0: // the modules nobody imports or includes
+		for i, m := range set.Mods {
+			if !m.Sub && !used[m] {
+				roots = append(roots, i)
+			}
+		}
+	case 1: // a random subset
+		for i := range set.Mods {
+			if r.Intn(2) == 0 {
+				roots = append(roots, i)
+			}
+		}
+	}
+	if len(roots) == 0 { // one module
+		var ms []int
+		for i, m := range set.Mods {
+			if !m.Sub {
+				ms = append(ms, i)
+			}
+		}
+		if len(ms) == 0 {
+			return rescorr.Case{}, false
+		}
+		roots = []int{ms[r.Intn(len(ms))]}
+	}
+	rs := make([]string, len(roots))
+	for i, x := range roots {
+		rs[i] = fmt.Sprint(x)
+	}
+	return rescorr.Case{Names: names, Texts: texts,
+		Extra: map[string]string{"label": "path", "from_path": "1", "roots": strings.Join(rs, ",")}}, true
+}
+
 // corpusCases: fixed sets for the re-parenting / late paths that random generation reaches rarely.
 func corpusCases() []rescorr.Case {
 	mk := func(kv ...string) rescorr.Case {
@@ -246,7 +321,48 @@ func corpusCases() []rescorr.Case {
 		}
 		return c
 	}
+	onPath := func(roots string, c rescorr.Case) rescorr.Case {
+		c.Extra = map[string]string{"label": "corpus-path", "from_path": "1", "roots": roots}
+		return c
+	}
 	return []rescorr.Case{
+		// files on disk: only `main` is handed over, `base` is loaded by Process from the path.  The
+		// auto-loaded module has a short-hand choice / is the target of a colliding augment / has an
+		// augment of its own / includes a submodule with all of that
+		onPath("0", mk("main.yang", `module main { namespace "urn:main"; prefix m; import base { prefix b; }
+  augment "/b:top" { leaf extra { type string; } }
+}
+`, "base.yang", `module base { namespace "urn:base"; prefix b;
+  container top { leaf name { type string; } choice kind { leaf a { type string; } container c { leaf x { type string; } } } }
+}
+`)),
+		onPath("0", mk("main.yang", `module main { namespace "urn:main"; prefix m; import base { prefix b; }
+  augment "/b:top" { leaf name { type string; } }
+}
+`, "base.yang", `module base { namespace "urn:base"; prefix b;
+  container top { leaf name { type string; } }
+}
+`)),
+		onPath("0", mk("main.yang", `module main { namespace "urn:main"; prefix m; import base { prefix b; }
+  container c { leaf l { type string; } }
+}
+`, "base.yang", `module base { namespace "urn:base"; prefix b;
+  container top { leaf name { type string; } }
+  augment "/top" { leaf more { type string; } }
+  augment "/nowhere" { leaf lost { type string; } }
+}
+`)),
+		onPath("0", mk("main.yang", `module main { namespace "urn:main"; prefix m; import base { prefix b; }
+  augment "/b:top/b:kind/b:c/b:c" { choice inner { leaf y { type string; } } }
+}
+`, "base.yang", `module base { namespace "urn:base"; prefix b; include bsub;
+  container top { choice kind { container c { leaf x { type string; } } } }
+}
+`, "bsub.yang", `submodule bsub { belongs-to base { prefix b; }
+  rpc op { input { choice how { leaf fast { type empty; } } } }
+  augment "/b:top" { leaf fromsub { type string; } }
+}
+`)),
 		// an importer augments through the implied case of a short-hand member; the body has a choice
 		// with short-hand members: only applicable in the last pass, grafted into the other module's tree
 		mk("base.yang", `module base { namespace "urn:base"; prefix b;
